@@ -12,7 +12,8 @@ from .. import gen_models as gm
 from .. import pipeline as pl
 
 THEOREMS = ["C16.layout", "C16.fields_point_to_data",
-            "C16b.pairwise_disjoint", "C16b.flatbuffer_prefix", "C16b.no_external", "C16b.toyFb_lenInvariant"]
+            "C16b.pairwise_disjoint", "C16b.flatbuffer_prefix", "C16b.no_external", "C16b.output_aligned",
+            "C16b.toyFb_lenInvariant"]
 ENVVAR = "AI_EDGE_QUANTIZER_VERIF_LARGE_MODEL_THRESHOLD"
 
 
